@@ -19,6 +19,9 @@ Variable chal : list (atom K) -> K.
 (** [impl ChallengeInput for PublicKey]: g1, g2, x2, y1s, y2s *)
 Definition pk_chunks (pk : pkey K) : list (atom K) :=
   [A1 (pk_g1 pk); A2 (pk_g2 pk); A2 (pk_x2 pk)] ++ map A1 (pk_y1s pk) ++ map A2 (pk_y2s pk).
+(** [PublicKey::to_bytes] (what [ChannelId::new] hashes): g1, y1s, g2, x2, y2s - another order than the challenge input *)
+Definition pk_to_bytes_atoms (pk : pkey K) : list (atom K) :=
+  [A1 (pk_g1 pk)] ++ map A1 (pk_y1s pk) ++ [A2 (pk_g2 pk); A2 (pk_x2 pk)] ++ map A2 (pk_y2s pk).
 Definition cp1_chunks (p : cproof K) : list (atom K) := [A1 (cp_C p); A1 (cp_T p)].
 Definition cp2_chunks (p : cproof K) : list (atom K) := [A2 (cp_C p); A2 (cp_T p)].
 Definition sp_chunks (p : sproof K) : list (atom K) :=
@@ -165,7 +168,7 @@ Definition pay_prove_with (pk : pkey K) (rp : rparams K) (hr gr : K)
   end.
 
 End Abacus.
-Arguments pk_chunks {_}. Arguments cp1_chunks {_}. Arguments cp2_chunks {_}. Arguments sp_chunks {_}.
+Arguments pk_chunks {_}. Arguments pk_to_bytes_atoms {_}. Arguments cp1_chunks {_}. Arguments cp2_chunks {_}. Arguments sp_chunks {_}.
 Arguments sig_chunks {_}. Arguments rp_chunks {_}. Arguments range_chunks {_}.
 Arguments mkEP {_}. Arguments e_kcid {_}. Arguments e_kclose {_}. Arguments e_kcb {_}. Arguments e_kmb {_}.
 Arguments e_sp {_}. Arguments e_csp {_}.
